@@ -120,12 +120,17 @@ def main():
                 broken.append("E1 %s: %s" % (label, r["error"])); continue
             cmds.append(r["cmd"])
             # an obligation id may name several properties ("C04.x|C02.y"): it counts for each of them under its own part
+            # a component may be listed under a second property with `count_as="Cxx"`: the obligations it states for Cxx in SEVERAL container
+            # kinds (each kind proved equal to the same oracle, hence the kinds agree with each other) then count for this property too
+            alias = c.get("count_as")
             def mine_list(lst):
                 out = []
                 for e in lst:
                     for part in e["id"].split("|"):
                         if part.startswith(prop + "."):
                             e2 = dict(e); e2["id"] = part; e2["full_id"] = e["id"]; out.append(e2); break
+                        if alias and part.startswith(alias + "."):
+                            e2 = dict(e); e2["id"] = prop + ".kinds_agree_with_one_oracle." + part; e2["full_id"] = e["id"]; out.append(e2); break
                 return out
             decl = mine_list(r["declared"])
             resid = mine_list(r["residual"])
